@@ -21,7 +21,7 @@ from vf.xmodel import Schema, Rop
 
 SHARDS = {'quick': 16, 'thorough': 64}
 TIMEOUT = {'quick': 1500, 'thorough': 7200}
-MUST_HIT = ['EarlierObject.rechecked', 'Count.association', 'Count.uniqueness', 'Count.is_consistent', 'Count.restricted-rel',
+MUST_HIT = ['Schema.association-number-declared-in-two-separate-runs', 'EarlierObject.rechecked', 'Count.association', 'Count.uniqueness', 'Count.is_consistent', 'Count.restricted-rel',
             'Count.restricted-kind', 'Count.subtype', 'Cli.main-return', 'Cli.process-exit-status',
             'Cli.exit-status-at-multiple-of-256', 'Count.subtype-after-history', 'Cli.bridgepoint-main', 'Cli.bridgepoint-all-associations-all-classes', 'Cli.bridgepoint-r-k',
             'Cli.bridgepoint-all-associations-k', 'Cli.bridgepoint-r-all-classes', 'Count.null-lowercase-unique_id', 'Count.nonzero-association',
@@ -519,6 +519,8 @@ def run(ctx):
                 ctx.case(('boundary',), True)
             except Mismatch as e:
                 ctx.violation(e.key, e.what, case=dict(part='exit-status-boundary'))
+        for k, v in sqlgen.SHAPES.items():
+            ctx.hit('Schema.' + k, v)
         full = bp_schema()
         for i in range(ctx.share(48 if ctx.tier == 'quick' else 1600)):
             try:
